@@ -10,6 +10,8 @@ Unit 3  psd/effects_layer.py (`lrFX`): Model/PayloadEffects.lean, Lemmas/Payload
 
 Unit 4  psd/patterns.py (`Patt` / `Pat2` / `Pat3`): Model/PayloadPatterns.lean, Lemmas/PayloadPatterns.lean.
 
+Unit 5  psd/linked_layer.py (`lnkD` / `lnk2` / `lnk3` / `lnkE`): Model/PayloadLinked.lean, Lemmas/PayloadLinked.lean.
+
 Reading guide (units 2-5)
 * every class is a `PCodec`: `c.enc v` is `v.tobytes(...)` (or `struct.error`), `c.dec` the reader at a cursor,
   `c.consumed v` the number of written bytes the reader consumes (some writers end with `write_padding`; no payload
@@ -36,6 +38,7 @@ import PsdVerif.Lemmas.PayloadLayerInfo2
 import PsdVerif.Lemmas.PayloadSimple
 import PsdVerif.Lemmas.PayloadEffects
 import PsdVerif.Lemmas.PayloadPatterns
+import PsdVerif.Lemmas.PayloadLinked
 import PsdVerif.Lemmas.PayloadSamples
 import PsdVerif.Model.PayloadTables
 
@@ -679,5 +682,75 @@ theorem unit4_tied :
 theorem unit4_calls_tied : Generated.Payload.unit4Calls = Tables.unit4Calls := by decide +kernel
 
 end unit4
+
+/-! ## unit 5: linked_layer.py -/
+
+section unit5
+open PCodec
+
+/-- one linked layer, every kind (DATA / EXTERNAL / ALIAS) × version (1 … 7): the optional fields each has, the position
+of the data (after the file size from version 3 on, last in version 2, absent in version 1 of an external item), the
+open-file and linked-file descriptor blocks; anywhere in a stream; the reader stops before the final filler -/
+theorem linked_layer_roundtrip (tb : Descriptor.Tables) (pad : Nat) : RoundTrip (LinkedLayer.codec tb pad) :=
+  roundTrip_of (LinkedLayer.rt tb pad)
+theorem linked_layer_rewrite_identical (tb : Descriptor.Tables) (pad : Nat) : RewriteIdentical (LinkedLayer.codec tb pad) :=
+  rewriteIdentical_of (LinkedLayer.rt tb pad).atEnd
+theorem linked_layer_written_is_length (tb : Descriptor.Tables) (pad : Nat) : WrittenIsLength (LinkedLayer.codec tb pad) :=
+  writtenIsLength_of (LinkedLayer.count tb pad)
+
+/-- `while is_readable(fp, 8)`, one `Q` length block (padding 4) per item: at the end of a stream -/
+theorem linked_layers_roundtrip_at_end (tb : Descriptor.Tables) : RoundTripAtEnd (LinkedLayers.codec tb) :=
+  roundTripAtEnd_of (LinkedLayers.rt tb)
+theorem linked_layers_rewrite_identical (tb : Descriptor.Tables) : RewriteIdentical (LinkedLayers.codec tb) :=
+  rewriteIdentical_of (LinkedLayers.rt tb)
+theorem linked_layers_written_is_length (tb : Descriptor.Tables) : WrittenIsLength (LinkedLayers.codec tb) :=
+  writtenIsLength_of (LinkedLayers.count tb)
+theorem tagged_block_linked_layers (tb : Descriptor.Tables) : TaggedBlockPayload (LinkedLayers.codec tb) :=
+  taggedBlockPayload_of (LinkedLayers.rt tb)
+
+/-! ### non-vacuity: every kind, every version threshold -/
+
+theorem unit5_samples_wf :
+    (LinkedLayers.codec Descriptor.realTables).WF Samples.linkedAll ∧ (LinkedLayers.codec Descriptor.realTables).Fits Samples.linkedAll := by
+  decide +kernel
+
+example : ∃ bs, (LinkedLayers.codec Descriptor.realTables).enc Samples.linkedAll = .ok bs ∧
+    (LinkedLayers.codec Descriptor.realTables).dec bs 0 = .ok (Samples.linkedAll, bs.length) := by
+  have henc : (LinkedLayers.codec Descriptor.realTables).enc Samples.linkedAll =
+      .ok ((LinkedLayers.codec Descriptor.realTables).encT Samples.linkedAll) := if_pos unit5_samples_wf.2
+  refine ⟨_, henc, ?_⟩
+  have hc : (LinkedLayers.codec Descriptor.realTables).consumed Samples.linkedAll =
+      ((LinkedLayers.codec Descriptor.realTables).encT Samples.linkedAll).length := rfl
+  simpa [hc] using linked_layers_roundtrip_at_end Descriptor.realTables _ unit5_samples_wf.1 _ [] henc
+
+/-! ### points excluded by `WF` (iii): a field the kind / version does not have -/
+
+/-- an alias with data, an external item of version 1 with data: the size is written, the data is not, `None` comes back -/
+theorem linked_data_not_stored :
+    ((LinkedLayer.codec Descriptor.realTables 1).dec (LinkedLayer.encT Descriptor.realTables 1 Samples.linkedAliasData) 0).map
+        (fun r => r.1.data) = .ok none ∧
+      ((LinkedLayer.codec Descriptor.realTables 1).dec (LinkedLayer.encT Descriptor.realTables 1 Samples.linkedExt1Data) 0).map
+        (fun r => r.1.data) = .ok none := by decide +kernel
+
+/-- a child id in version 4 is written (`if self.child_id is not None`) but not read (`if version >= 5`) -/
+theorem linked_child_id_below_version5_not_read :
+    ((LinkedLayer.codec Descriptor.realTables 1).dec (LinkedLayer.encT Descriptor.realTables 1 Samples.linkedChildV4) 0).map
+        (fun r => (r.1.childId, r.2 + 6)) = .ok (none, (LinkedLayer.encT Descriptor.realTables 1 Samples.linkedChildV4).length) := by
+  decide +kernel
+
+/-! ### ties -/
+
+theorem unit5_tied :
+    Generated.Payload.linkedLayerTypes = Tables.linkedLayerTypes ∧ Generated.Payload.linkedData = Tables.linkedData ∧
+      Generated.Payload.linkedExternal = Tables.linkedExternal ∧ Generated.Payload.linkedAlias = Tables.linkedAlias ∧
+      Generated.Payload.linkedVersionMin = Tables.linkedVersionMin ∧ Generated.Payload.linkedVersionMax = Tables.linkedVersionMax ∧
+      Generated.Payload.unit5Registry = Tables.unit5Registry := by decide +kernel
+
+/-- the tests that decide which optional field is read / written, as the source has them -/
+theorem linked_conditions_tied : Generated.Payload.linkedConditions = Tables.linkedConditions := by decide +kernel
+
+theorem unit5_calls_tied : Generated.Payload.unit5Calls = Tables.unit5Calls := by decide +kernel
+
+end unit5
 
 end PsdVerif.C01Payload
